@@ -228,6 +228,37 @@ def unlayer : Stream → List Tok × Stream
   | .layer _ p b => (p, b)
   | b => ([], b)
 
+/-- `next()` of `itertools.chain(pre, base)`; `rec` is `next()` of the base -/
+def chainPull (rec : PG → Stream → Pull) (g : PG) (pre : List Tok) (base : Stream) : Pull :=
+  match pre with
+  | t :: pre => .tok t (.layer none pre base) g
+  | [] => match rec g base with
+    | .tok t b g => .tok t (.layer none [] b) g
+    | .stop b g => .stop (.layer none [] b) g
+    | .unsupported => .unsupported
+
+/-- one resumption of the `_SorTokens` generator that has nothing pending (prodparser.py:410-437) -/
+def sorPull (rec : PG → Stream → Pull) (g : PG) (act : Bool) (pre : List Tok) (base : Stream) : Pull :=
+  match chainPull rec g pre base with                                         -- `for token in tokens:` (:410)
+  | .unsupported => .unsupported
+  | .stop inner g => .stop (.layer (some (act, [])) (unlayer inner).1 (unlayer inner).2) g
+  | .tok t inner g =>
+    let pre' := (unlayer inner).1
+    let b := (unlayer inner).2
+    if !act then .tok t (.layer (some (false, [])) pre' b) g                  -- :411-413
+    else if t.typ == .s then                                                  -- :414
+      match chainPull rec g pre' b with                                       -- :416 next(tokens)
+      | .unsupported => .unsupported
+      | .stop inner2 g => .tok t (.layer (some (true, [])) (unlayer inner2).1 (unlayer inner2).2) g   -- :417-418
+      | .tok n inner2 g =>
+        let p2 := (unlayer inner2).1
+        let b2 := (unlayer inner2).2
+        if n.sep then .tok n (.layer (some (true, [])) p2 b2) g                -- :420-422
+        else if n.typ == .comment then .tok n (.layer (some (true, [])) p2 b2) g   -- :423-425
+        else .tok t (.layer (some (true, [n])) p2 b2) g                        -- :427-429
+    else if t.typ == .comment then .tok t (.layer (some (true, [])) pre' b) g  -- :431-433
+    else .tok t (.layer (some (false, [])) pre' b) g                          -- :435-437
+
 /-- `next(tokens)`; the first argument only bounds the nesting depth of the stream (`pull` below) -/
 def pullF : Nat → PG → Stream → Pull
   | _, g, .tkz _ [] => .stop (.tkz false []) g                            -- tokenize2.py:153 `while pos < _len_text`
@@ -240,38 +271,10 @@ def pullF : Nat → PG → Stream → Pull
   | _, g, .lst [] => .stop (.lst []) g
   | _, g, .lst (t :: rest) => .tok t (.lst rest) g
   | 0, _, .layer .. => .unsupported                                       -- not reachable from `pull`
-  | n + 1, g, .layer sor pre base =>
-    -- next() of itertools.chain(pre, base)
-    let chain (g : PG) (pre : List Tok) (base : Stream) : Pull :=
-      match pre with
-      | t :: pre => .tok t (.layer none pre base) g
-      | [] => match pullF n g base with
-        | .tok t b g => .tok t (.layer none [] b) g
-        | .stop b g => .stop (.layer none [] b) g
-        | .unsupported => .unsupported
-    match sor with
-    | none => chain g pre base
-    | some (act, t :: pend) => .tok t (.layer (some (act, pend)) pre base) g       -- second `yield` (:429)
-    | some (act, []) =>
-      match chain g pre base with                                                 -- `for token in tokens:` (:410)
-      | .unsupported => .unsupported
-      | .stop inner g => .stop (.layer (some (act, [])) (unlayer inner).1 (unlayer inner).2) g
-      | .tok t inner g =>
-        let pre' := (unlayer inner).1
-        let b := (unlayer inner).2
-        if !act then .tok t (.layer (some (false, [])) pre' b) g                  -- :411-413
-        else if t.typ == .s then                                                  -- :414
-          match chain g pre' b with                                               -- :416 next(tokens)
-          | .unsupported => .unsupported
-          | .stop inner2 g => .tok t (.layer (some (true, [])) (unlayer inner2).1 (unlayer inner2).2) g   -- :417-418
-          | .tok n inner2 g =>
-            let p2 := (unlayer inner2).1
-            let b2 := (unlayer inner2).2
-            if n.sep then .tok n (.layer (some (true, [])) p2 b2) g                -- :420-422
-            else if n.typ == .comment then .tok n (.layer (some (true, [])) p2 b2) g   -- :423-425
-            else .tok t (.layer (some (true, [n])) p2 b2) g                        -- :427-429
-        else if t.typ == .comment then .tok t (.layer (some (true, [])) pre' b) g  -- :431-433
-        else .tok t (.layer (some (false, [])) pre' b) g                          -- :435-437
+  | n + 1, g, .layer none pre base => chainPull (pullF n) g pre base
+  | _ + 1, g, .layer (some (act, t :: pend)) pre base =>
+      .tok t (.layer (some (act, pend)) pre base) g                       -- the second `yield` (:429)
+  | n + 1, g, .layer (some (act, [])) pre base => sorPull (pullF n) g act pre base
 
 def pull (g : PG) (s : Stream) : Pull := pullF (s.depth + 1) g s
 
@@ -405,90 +408,101 @@ def childItems (k : Nat) : Out → List Item      -- reversed
   | .noContent => [.closeNoContent, .openc k]
   | _ => [.closeOther, .openc k]
 
-/-- `ProdParser().parse(...)` followed by the owner's post-processing; `loop` is the `while True` of
-prodparser.py:505-637 — one unit of fuel per iteration and per nested parser -/
+/-- `prod.toSeq(token, tokens)` for a nested parser: `Child(pushtoken(t, tokens))` builds a `ProdParser()`
+(which clears the push-back queue, prodparser.py:370-371), parses from `chain([t], tokens)` and — in the
+owners that do so — reports a result that is not wellformed. `rec` runs the child's `parse`. -/
+def runChild (env : Env) (rec : Nat → L → PG → Res) (k' : Nat) (tok : Tok) (l : L) (g : PG) : Option L × Out × PG :=
+  match env[k']? with
+  | none => (none, .unsupported, g)
+  | some csp =>
+    let r := rec k' (L.init (.layer none [tok] l.toks)) { g with pushed := [] }
+    match r.out with
+    | .raised => (none, .raised, r.g)
+    | .noFuel => (none, .noFuel, r.g)
+    | .unsupported => (none, .unsupported, r.g)
+    | .ok wf items =>
+      if !wf && csp.postErr && r.g.raising then (none, .raised, r.g)
+      else (some { l with toks := parentOf r.toks, seq := childItems k' (.ok wf items) ++ l.seq }, .noContent, r.g)
+    | .noContent =>
+      if csp.postErr && r.g.raising then (none, .raised, r.g)
+      else (some { l with toks := parentOf r.toks, seq := childItems k' .noContent ++ l.seq }, .noContent, r.g)
+
+/-- a `Prod` matched (prodparser.py:596-640) -/
+def onFound (env : Env) (sp : Spec) (fuel : Nat) (rec : Nat → L → PG → Res) (k : Nat) (tok : Tok)
+    (fl : PFlags) (act : Act) (l : L) (g : PG) : Res :=
+  let l := { l with stopIf := fl.stopIf || l.stopIf }                          -- :601
+  -- :604-615 toSeq
+  let r : Option L × Out × PG :=
+    if fl.stopAndKeep then (some l, .noContent, g) else
+    match act with
+    | .drop => (some l, .noContent, g)
+    | .keep => (some { l with seq := .tok tok.sym (tok.typ == .s) :: l.seq }, .noContent, g)
+    | .child k' => runChild env rec k' tok l g
+  match r with
+  | (none, o, g) => ⟨o, l.toks, g⟩
+  | (some l, _, g) =>
+    if fl.stop then epilogue sp fuel l g                                       -- :617-620
+    else if fl.stopAndKeep then                                                -- :622-632
+      epilogue sp fuel { l with stopall := true } { g with pushed := tok :: g.pushed }
+    else if fl.nextSor then                                                    -- :634-640
+      rec k { l with toks := setSor l.toks, defaultS := false } g
+    else rec k { l with defaultS := true } g
+
+/-- one token has been fetched (prodparser.py:518-637) -/
+def onTok (env : Env) (sp : Spec) (fuel : Nat) (rec : Nat → L → PG → Res) (k : Nat) (tok : Tok) (l : L) (g : PG) : Res :=
+  match tok.typ with
+  | .comment => rec k { l with seq := .com tok.sym :: l.seq } g                         -- :521-525
+  | .invalid =>                                                                        -- :537-541
+    if g.raising then ⟨.raised, l.toks, g⟩
+    else epilogue sp fuel { l with wellformed := false } g
+  | .eof => rec k { l with stopall := true } g                                          -- :543-545
+  | ty =>
+    if ty == .s && l.defaultS && !sp.checkS then                                       -- :527
+      if !sp.keepS || !l.started then rec k l g                                        -- :529-530
+      else rec k { l with seq := .tok tok.sym true :: l.seq } g                        -- :531-532
+    else
+      let l := { l with started := true }                                              -- :548
+      match search sp.tb fuel l.prods l.st l.prod tok with
+      | .noFuel => ⟨.noFuel, l.toks, g⟩
+      | .noMatch prods st =>                                                           -- :573-582
+        let l := { l with prods := prods, st := st, prod := none }
+        if l.stopIf then
+          epilogue sp fuel { l with stopall := true } { g with saved := tok :: g.saved }   -- :577-578
+        else if g.raising then ⟨.raised, l.toks, g⟩
+        else epilogue sp fuel { l with wellformed := false } g
+      | .perr pv prods st =>                                                           -- :584-594
+        let l := { l with prods := prods, st := st, prod := pv }
+        if l.stopIf then
+          epilogue sp fuel { l with stopall := true } { g with pushed := tok :: g.pushed } -- :589-590
+        else if g.raising then ⟨.raised, l.toks, g⟩
+        else epilogue sp fuel { l with wellformed := false } g
+      | .found p prods st =>
+        let l := { l with prods := prods, st := st, prod := some p }
+        match sp.tb[p]? with
+        | some (.prod _ fl act) => onFound env sp fuel rec k tok fl act l g
+        | _ => ⟨.unsupported, l.toks, g⟩
+
+/-- `savedTokens.pop()`, else `next(tokens)` (prodparser.py:506-514) -/
+def fetch (l : L) (g : PG) : Option (Option Tok × Stream × PG) :=
+  match g.saved with
+  | t :: rest => some (some t, l.toks, { g with saved := rest })
+  | [] => match pull g l.toks with
+    | .tok t s g => some (some t, s, g)
+    | .stop s g => some (none, s, g)
+    | .unsupported => none
+
+/-- `ProdParser.parse` from the `while True` on (prodparser.py:505-683); grammar `env[k]`, local variables `l`.
+One unit of fuel per iteration and per nested parser. -/
 def loop (env : Env) : Nat → Nat → L → PG → Res
   | 0, _, l, g => ⟨.noFuel, l.toks, g⟩
   | fuel + 1, k, l, g =>
     match env[k]? with
     | none => ⟨.unsupported, l.toks, g⟩
     | some sp =>
-    -- :506-514 get from savedTokens or normal tokens
-    let head : Option (Option Tok × Stream × PG) :=
-      match g.saved with
-      | t :: rest => some (some t, l.toks, { g with saved := rest })
-      | [] => match pull g l.toks with
-        | .tok t s g => some (some t, s, g)
-        | .stop s g => some (none, s, g)
-        | .unsupported => none
-    match head with
-    | none => ⟨.unsupported, l.toks, g⟩
-    | some (none, s, g) => epilogue sp fuel { l with toks := s } g
-    | some (some tok, s, g) =>
-      let l := { l with toks := s }
-      match tok.typ with
-      | .comment => loop env fuel k { l with seq := .com tok.sym :: l.seq } g              -- :521-525
-      | .invalid =>                                                                        -- :537-541
-        if g.raising then ⟨.raised, l.toks, g⟩
-        else epilogue sp fuel { l with wellformed := false } g
-      | .eof => loop env fuel k { l with stopall := true } g                               -- :543-545
-      | ty =>
-        if ty == .s && l.defaultS && !sp.checkS then                                       -- :527
-          if !sp.keepS || !l.started then loop env fuel k l g                              -- :529-530
-          else loop env fuel k { l with seq := .tok tok.sym true :: l.seq } g              -- :531-532
-        else
-          let l := { l with started := true }                                              -- :548
-          match search sp.tb fuel l.prods l.st l.prod tok with
-          | .noFuel => ⟨.noFuel, l.toks, g⟩
-          | .noMatch prods st =>                                                           -- :573-582
-            let l := { l with prods := prods, st := st, prod := none }
-            if l.stopIf then
-              epilogue sp fuel { l with stopall := true } { g with saved := tok :: g.saved }   -- :577-578
-            else if g.raising then ⟨.raised, l.toks, g⟩
-            else epilogue sp fuel { l with wellformed := false } g
-          | .perr pv prods st =>                                                           -- :584-594
-            let l := { l with prods := prods, st := st, prod := pv }
-            if l.stopIf then
-              epilogue sp fuel { l with stopall := true } { g with pushed := tok :: g.pushed } -- :589-590
-            else if g.raising then ⟨.raised, l.toks, g⟩
-            else epilogue sp fuel { l with wellformed := false } g
-          | .found p prods st =>
-            let l := { l with prods := prods, st := st, prod := some p }
-            match sp.tb[p]? with
-            | some (.prod _ fl act) =>
-              let l := { l with stopIf := fl.stopIf || l.stopIf }                          -- :601
-              -- :604-615 toSeq
-              let r : Option L × Out × PG :=
-                if fl.stopAndKeep then (some l, .noContent, g) else
-                match act with
-                | .drop => (some l, .noContent, g)
-                | .keep => (some { l with seq := .tok tok.sym (tok.typ == .s) :: l.seq }, .noContent, g)
-                | .child k' =>
-                  match env[k']? with
-                  | none => (none, .unsupported, g)
-                  | some csp =>
-                    -- Child(pushtoken(t, tokens)): `ProdParser()` clears the push-back queue (:370-371)
-                    let r := loop env fuel k' (L.init (.layer none [tok] l.toks)) { g with pushed := [] }
-                    match r.out with
-                    | .raised => (none, .raised, r.g)
-                    | .noFuel => (none, .noFuel, r.g)
-                    | .unsupported => (none, .unsupported, r.g)
-                    | o =>
-                      let bad := match o with
-                        | .ok wf _ => !wf
-                        | _ => true
-                      if bad && csp.postErr && r.g.raising then (none, .raised, r.g)
-                      else (some { l with toks := parentOf r.toks, seq := childItems k' o ++ l.seq }, .noContent, r.g)
-              match r with
-              | (none, o, g) => ⟨o, l.toks, g⟩
-              | (some l, _, g) =>
-                if fl.stop then epilogue sp fuel l g                                       -- :617-620
-                else if fl.stopAndKeep then                                                -- :622-632
-                  epilogue sp fuel { l with stopall := true } { g with pushed := tok :: g.pushed }
-                else if fl.nextSor then                                                    -- :634-640
-                  loop env fuel k { l with toks := setSor l.toks, defaultS := false } g
-                else loop env fuel k { l with defaultS := true } g
-            | _ => ⟨.unsupported, l.toks, g⟩
+      match fetch l g with
+      | none => ⟨.unsupported, l.toks, g⟩
+      | some (none, s, g) => epilogue sp fuel { l with toks := s } g
+      | some (some tok, s, g) => onTok env sp fuel (loop env fuel) k tok { l with toks := s } g
 
 /-- a stand-alone constructor call `Owner(text)`: `ProdParser()` (clears `_pushed`), `.parse(text, …)`, then the
 owner's own error report when the result is not wellformed -/
